@@ -416,16 +416,16 @@ fn undecodable_blobs(tier: Tier) -> (Set2, Vec<(String, Vec<u8>)>) {
         ("sixteen 0xFF bytes".into(), vec![0xFF; 16]),
         ("text".into(), b"this is not an archived set at all, just some text....".to_vec()),
     ];
-    for cut in (0..bytes.len()).step_by(tier.pick(16, 4)) {
+    for cut in (0..bytes.len()).step_by(tier.pick(16, 1)) {
         blobs.push((format!("genuine state truncated to {cut} of {} bytes", bytes.len()), bytes[..cut].to_vec()));
     }
-    for pos in (0..bytes.len()).step_by(tier.pick(24, 4)) {
+    for pos in (0..bytes.len()).step_by(tier.pick(24, 1)) {
         let mut b = bytes.clone();
         b[pos] ^= 0xFF;
         blobs.push((format!("genuine state with byte {pos} inverted"), b));
     }
     // the tail holds the root object (relative pointers and lengths): every bit there
-    let tail = bytes.len().saturating_sub(tier.pick(24, 96));
+    let tail = bytes.len().saturating_sub(tier.pick(24, 200));
     for pos in tail..bytes.len() {
         for bit in 0..8 {
             let mut b = bytes.clone();
@@ -513,7 +513,7 @@ pub fn run(tier: Tier) -> i32 {
 
     let pool = c02::pool();
     let al = dyn_alphabet(&pool);
-    let cfg = BfsCfg { max_depth: tier.pick(4, 5), max_states: tier.pick(4_000, 40_000) };
+    let cfg = BfsCfg { max_depth: tier.pick(4, 6), max_states: tier.pick(4_000, 400_000) };
     let (st, sum) = bfs_replay(
         &cfg,
         |_h: &[Step]| al.clone(),
